@@ -74,11 +74,18 @@ pub struct Req<'a> {
 pub fn build_subject() -> Result<PathBuf, String> {
     let target = subject_target();
     let t0 = Instant::now();
+    // SEED_VERIF_COVERAGE=<dir>: alphabet-design aid only (tools/coverage.sh) -- the subject is built
+    // with source-coverage instrumentation by the nightly toolchain and every run adds to <dir>
+    let cov = std::env::var("SEED_VERIF_COVERAGE").ok();
+    let mut args = vec!["build", "--release", "--offline"];
+    if cov.is_some() {
+        args.insert(0, "+nightly");
+    }
     let out = Command::new("cargo")
-        .args(["build", "--release", "--offline"])
+        .args(&args)
         .current_dir(repo())
         .env("CARGO_NET_OFFLINE", "true")
-        .env("RUSTFLAGS", "--cfg seed_verif")
+        .env("RUSTFLAGS", if cov.is_some() { "--cfg seed_verif -C instrument-coverage" } else { "--cfg seed_verif" })
         .env("CARGO_TARGET_DIR", &target)
         .output()
         .map_err(|e| format!("cannot run cargo: {}", e))?;
@@ -410,6 +417,9 @@ pub fn default_env() -> Vec<(String, String)> {
     if Path::new(&shim).exists() {
         v.push(("LD_PRELOAD".to_string(), shim));
         v.push(("SEED_VERIF_HASHSEED".to_string(), "0".to_string()));
+    }
+    if let Ok(dir) = std::env::var("SEED_VERIF_COVERAGE") {
+        v.push(("LLVM_PROFILE_FILE".to_string(), format!("{}/seed-%8m.profraw", dir)));
     }
     v
 }
